@@ -155,6 +155,31 @@ fn roundtrip_sweep(rep: &mut Report) {
             }
         }
     }
+    // long sequences (a packet carries up to a window of 128 pending inputs, and a few more):
+    // every length 1..=140, several value patterns in which consecutive inputs differ
+    let max_seq = if thorough { 140 } else { 140 };
+    for n in 1..=max_seq {
+        for pat in 0..4u32 {
+            for ilen in [1usize, 2, 4] {
+                let seq: Vec<Vec<u8>> = (0..n)
+                    .map(|i| {
+                        (0..ilen)
+                            .map(|j| match pat {
+                                0 => (i as u32 * 7 + j as u32) as u8,
+                                1 => if (i / 3) % 2 == 0 { 0x00 } else { 0xFF },
+                                2 => ((i as u32).wrapping_mul(2654435761) >> (8 * j as u32)) as u8,
+                                _ => if i % 5 == 4 { 0 } else { (i % 3) as u8 + 1 },
+                            })
+                            .collect()
+                    })
+                    .collect();
+                fam.push((vec![0u8; ilen], seq.clone()));
+                if n % 10 == 0 {
+                    fam.push((vec![0xA5; 3], seq));
+                }
+            }
+        }
+    }
     for size in [65534usize, 65535] {
         for fill in [0x00u8, 0xFF, 0x5A] {
             let big = vec![fill; size];
@@ -189,7 +214,7 @@ fn roundtrip_sweep(rep: &mut Report) {
         rep.add_finding(f);
     }
     rep.evaluations += nf as u64;
-    rep.parts.push(json!({"part": "round trip over the run-length stress family (0x00^n, 0xFF^n, (00 FF)^n, a literal at every position, sizes 65534/65535)", "max_n": max_n, "cases": nf}));
+    rep.parts.push(json!({"part": "round trip over the run-length stress family (0x00^n, 0xFF^n, (00 FF)^n, a literal at every position, sizes 65534/65535) and long sequences of 1..=140 inputs", "max_n": max_n, "cases": nf}));
 }
 
 // ---------------------------------------------------------------- totality sweep (children)
